@@ -185,16 +185,20 @@ pub enum Method {
     AnchoredTrim,
     /// read_n of the piece, split_at somewhere, both halves fed in order
     AnchoredSplit,
+    /// like AnchoredSplit, but the right half is held back across this step's
+    /// observation / drain / arena poke and only fed before the next piece
+    AnchoredSplitHold,
     /// encode_read / decode_read through a scripted short-read reader
     Read,
 }
 
-pub const METHODS: [Method; 6] = [
+pub const METHODS: [Method; 7] = [
     Method::Borrow,
     Method::Copy,
     Method::Anchored,
     Method::AnchoredTrim,
     Method::AnchoredSplit,
+    Method::AnchoredSplitHold,
     Method::Read,
 ];
 
@@ -471,19 +475,39 @@ pub struct EncodeOut {
     pub obs: SideObs,
 }
 
-/// Feeds `input` to an encoder according to `plan`, monitoring after every call.
-pub fn run_encode(params: Params, input: &[u8], plan: &[PieceStep], owned: &Owned, heavy_monitor: bool, soft: &mut Soft) -> Result<EncodeOut, Fail> {
-    let mut obs = SideObs::default();
-    let mut enc = AnyEnc::new(params);
+/// Feeds `input` to `enc` according to `plan`, monitoring after every call.
+#[allow(clippy::too_many_arguments)]
+fn encode_segment<'a>(
+    enc: &mut AnyEnc<'a>,
+    input: &'a [u8],
+    plan: &[PieceStep],
+    obs: &mut SideObs,
+    owned: &Owned,
+    heavy_monitor: bool,
+    soft: &mut Soft,
+    held: &mut Option<AnchoredSlice>,
+    lag_limit: Option<usize>,
+) -> Result<(), Fail> {
     let mut start = 0usize;
-    let lag_limit = Some(lag_limit_for(params));
     for (si, step) in plan.iter().enumerate() {
+        if let Some(r) = held.take() {
+            enc.encode_anchored(r);
+        }
         let piece = &input[start..step.end];
-        feed_encoder(&mut enc, piece, step, &mut obs, owned)?;
+        feed_encoder(enc, piece, step, obs, owned, held)?;
         start = step.end;
         let full_peek = heavy_monitor || si % 16 == 0 || step.drain != Drain::None;
-        observe_and_drain(enc.consumer(), step.drain, step.poke, &mut obs, owned, lag_limit, false, full_peek, soft)?;
+        observe_and_drain(enc.consumer(), step.drain, step.poke, obs, owned, lag_limit, false, full_peek, soft)?;
     }
+    if let Some(r) = held.take() {
+        enc.encode_anchored(r);
+    }
+    Ok(())
+}
+
+/// Finishes the encoder; returns everything it produced (drained ++ rest)
+/// and the finished iovec.
+fn finish_encode<'a>(enc: AnyEnc<'a>, mut obs: SideObs, owned: &Owned, soft: &mut Soft) -> Result<(EncodeOut, OwningIovec<'a>), Fail> {
     let iov = enc.finish();
     {
         let prefix = iov.stable_prefix();
@@ -502,9 +526,19 @@ pub fn run_encode(params: Params, input: &[u8], plan: &[PieceStep], owned: &Owne
     }
     let mut total = std::mem::take(&mut obs.drained);
     total.extend_from_slice(&tail);
-    drop(iov);
     check_peeks(&obs, &total, "encoder")?;
-    Ok(EncodeOut { total, obs })
+    Ok((EncodeOut { total, obs }, iov))
+}
+
+/// Feeds `input` to a fresh encoder according to `plan`, monitoring after every call.
+pub fn run_encode(params: Params, input: &[u8], plan: &[PieceStep], owned: &Owned, heavy_monitor: bool, soft: &mut Soft) -> Result<EncodeOut, Fail> {
+    let mut obs = SideObs::default();
+    let mut enc = AnyEnc::new(params);
+    let mut held = None;
+    encode_segment(&mut enc, input, plan, &mut obs, owned, heavy_monitor, soft, &mut held, Some(lag_limit_for(params)))?;
+    let (out, iov) = finish_encode(enc, obs, owned, soft)?;
+    drop(iov);
+    Ok(out)
 }
 
 fn scripted<'d>(piece: &'d [u8], aux: u64) -> ScriptedReader<'d> {
@@ -526,7 +560,7 @@ fn read_anchored_enc(enc: &mut AnyEnc<'_>, piece: &[u8], aux: u64, obs: &mut Sid
     Ok(a)
 }
 
-fn feed_encoder<'a>(enc: &mut AnyEnc<'a>, piece: &'a [u8], step: &PieceStep, obs: &mut SideObs, owned: &Owned) -> Result<(), Fail> {
+fn feed_encoder<'a>(enc: &mut AnyEnc<'a>, piece: &'a [u8], step: &PieceStep, obs: &mut SideObs, owned: &Owned, held: &mut Option<AnchoredSlice>) -> Result<(), Fail> {
     match step.method {
         Method::Borrow => enc.encode(piece),
         Method::Copy => enc.encode_copy(piece),
@@ -550,16 +584,21 @@ fn feed_encoder<'a>(enc: &mut AnyEnc<'a>, piece: &'a [u8], step: &PieceStep, obs
             }
             enc.encode_anchored(a);
         }
-        Method::AnchoredSplit => {
+        Method::AnchoredSplit | Method::AnchoredSplitHold => {
             let a = read_anchored_enc(enc, piece, step.aux, obs)?;
             let mid = if piece.is_empty() { 0 } else { (step.aux >> 16) as usize % (piece.len() + 1) };
             let (l, r) = a.split_at(mid);
             if l.slice().len() + r.slice().len() != piece.len() {
                 return Err(fail(&["C05"], "split-len", "split_at lost or duplicated bytes".into()));
             }
-            // Sometimes let the right half outlive the left half's consumption.
             enc.encode_anchored(l);
-            enc.encode_anchored(r);
+            if step.method == Method::AnchoredSplitHold {
+                // The right half outlives whatever happens to the left
+                // half's bytes (drained, arena flushed / swapped).
+                *held = Some(r);
+            } else {
+                enc.encode_anchored(r);
+            }
         }
         Method::Read => {
             let mut r = scripted(piece, step.aux);
@@ -594,20 +633,32 @@ fn read_anchored_dec(dec: &mut AnyDec<'_>, piece: &[u8], aux: u64, obs: &mut Sid
     Ok(a)
 }
 
-/// Feeds `enc` to a decoder according to `plan`.
-pub fn run_decode(params: Params, enc: &[u8], plan: &[PieceStep], owned: &Owned, heavy_monitor: bool, soft: &mut Soft) -> Result<DecodeOut, Fail> {
-    let mut obs = SideObs::default();
-    let mut dec = AnyDec::new(params);
+/// Feeds `enc` to `dec` according to `plan`; Ok(true) if the decoder rejected.
+#[allow(clippy::too_many_arguments)]
+fn decode_segment<'a>(
+    dec: &mut AnyDec<'a>,
+    enc: &'a [u8],
+    plan: &[PieceStep],
+    obs: &mut SideObs,
+    owned: &Owned,
+    heavy_monitor: bool,
+    soft: &mut Soft,
+    held: &mut Option<AnchoredSlice>,
+) -> Result<bool, Fail> {
     let mut start = 0usize;
-    let mut rejected = false;
     for (si, step) in plan.iter().enumerate() {
+        if let Some(r) = held.take() {
+            if dec.decode_anchored(r).is_err() {
+                return Ok(true);
+            }
+        }
         let piece = &enc[start..step.end];
         start = step.end;
         let r: Result<(), ()> = match step.method {
             Method::Borrow => dec.decode(piece).map_err(|_| ()),
             Method::Copy => dec.decode_copy(piece).map_err(|_| ()),
             Method::Anchored => {
-                let a = read_anchored_dec(&mut dec, piece, step.aux, &mut obs)?;
+                let a = read_anchored_dec(dec, piece, step.aux, obs)?;
                 expose::check_one(a.slice(), owned, &mut obs.expose).map_err(|e| fail(&["C05"], "expose-anchored", e))?;
                 dec.decode_anchored(a).map_err(|_| ())
             }
@@ -617,7 +668,7 @@ pub fn run_decode(params: Params, enc: &[u8], plan: &[PieceStep], owned: &Owned,
                 let mut buf = vec![0x00u8; pre];
                 buf.extend_from_slice(piece);
                 buf.extend(std::iter::repeat(0xFF).take(post));
-                let mut a = read_anchored_dec(&mut dec, &buf, step.aux, &mut obs)?;
+                let mut a = read_anchored_dec(dec, &buf, step.aux, obs)?;
                 let _ = a.skip_prefix(pre);
                 let _ = a.drop_suffix(post);
                 if a.slice() != piece {
@@ -625,12 +676,19 @@ pub fn run_decode(params: Params, enc: &[u8], plan: &[PieceStep], owned: &Owned,
                 }
                 dec.decode_anchored(a).map_err(|_| ())
             }
-            Method::AnchoredSplit => {
-                let a = read_anchored_dec(&mut dec, piece, step.aux, &mut obs)?;
+            Method::AnchoredSplit | Method::AnchoredSplitHold => {
+                let a = read_anchored_dec(dec, piece, step.aux, obs)?;
                 let mid = if piece.is_empty() { 0 } else { (step.aux >> 16) as usize % (piece.len() + 1) };
                 let (l, r) = a.split_at(mid);
                 match dec.decode_anchored(l) {
-                    Ok(()) => dec.decode_anchored(r).map_err(|_| ()),
+                    Ok(()) => {
+                        if step.method == Method::AnchoredSplitHold {
+                            *held = Some(r);
+                            Ok(())
+                        } else {
+                            dec.decode_anchored(r).map_err(|_| ())
+                        }
+                    }
                     Err(_) => Err(()),
                 }
             }
@@ -655,12 +713,25 @@ pub fn run_decode(params: Params, enc: &[u8], plan: &[PieceStep], owned: &Owned,
             }
         };
         if r.is_err() {
-            rejected = true;
-            break;
+            return Ok(true);
         }
         let full_peek = heavy_monitor || si % 16 == 0 || step.drain != Drain::None;
-        observe_and_drain(dec.consumer(), step.drain, step.poke, &mut obs, owned, None, true, full_peek, soft)?;
+        observe_and_drain(dec.consumer(), step.drain, step.poke, obs, owned, None, true, full_peek, soft)?;
     }
+    if let Some(r) = held.take() {
+        if dec.decode_anchored(r).is_err() {
+            return Ok(true);
+        }
+    }
+    Ok(false)
+}
+
+/// Feeds `enc` to a decoder according to `plan`.
+pub fn run_decode(params: Params, enc: &[u8], plan: &[PieceStep], owned: &Owned, heavy_monitor: bool, soft: &mut Soft) -> Result<DecodeOut, Fail> {
+    let mut obs = SideObs::default();
+    let mut dec = AnyDec::new(params);
+    let mut held = None;
+    let rejected = decode_segment(&mut dec, enc, plan, &mut obs, owned, heavy_monitor, soft, &mut held)?;
     if rejected {
         // The decoder refused the input, but what it decoded before the
         // error stays readable through its consumer: it must stay alive and
@@ -1018,6 +1089,226 @@ fn round_trip(ctx: &mut Ctx, kind: &str, index: u64, case: &RoundTripCase<'_>) -
         return None;
     }
     Some(mix(&[params.limits().0 as u64, params.limits().1 as u64, sig_bits.0, sig_bits.1, sig_bits.2]))
+}
+
+// ---------------------------------------------------------------------------
+// Recycled iovecs: several messages through one iovec / arena
+
+struct MsgSpec {
+    /// (offset, length) of the part of this message that was read into the
+    /// previous codec's arena (as an AnchoredSlice) before that codec finished
+    carry: Option<(usize, usize)>,
+    plan_a: Vec<PieceStep>,
+    plan_b: Vec<PieceStep>,
+    /// what happens to the finished iovec before the next codec adopts it:
+    /// 0 clear(), 1 advance_slices(all), 2 kept as is, 3 consume(all)
+    recycle: u8,
+    aux: u64,
+}
+
+fn chain_json(index: u64, decode_side: bool, feeds: &[Vec<u8>], specs: &[MsgSpec]) -> Json {
+    Json::obj()
+        .with("kind", Json::s("reuse-chain"))
+        .with("index", Json::U(index))
+        .with("side", Json::s(if decode_side { "decoder" } else { "encoder" }))
+        .with(
+            "messages",
+            Json::Arr(
+                feeds
+                    .iter()
+                    .zip(specs.iter())
+                    .map(|(f, sp)| {
+                        Json::obj()
+                            .with("fed_len", Json::U(f.len() as u64))
+                            .with("fed", Json::hex(&f[..f.len().min(4096)]))
+                            .with("carried_range", Json::Str(format!("{:?}", sp.carry)))
+                            .with("recycle", Json::U(sp.recycle as u64))
+                            .with("plan_before_carry", plan_json(&sp.plan_a))
+                            .with("plan_after_carry", plan_json(&sp.plan_b))
+                    })
+                    .collect(),
+            ),
+        )
+}
+
+/// Messages 0..k go through codecs that adopt the previous codec's finished
+/// iovec (`new_from_iovec`), after it was cleared, drained or left as is.  A
+/// part of message m+1 may already sit in the arena as an AnchoredSlice read
+/// through codec m.  Every message's output must be what a fresh codec
+/// produces (after whatever the iovec still held).
+fn reuse_chain(ctx: &mut Ctx, idx: u64, rng: &mut Rng, miri: bool, drain_weight: u32) -> Option<u64> {
+    let k = rng.range(2, 4);
+    let decode_side = rng.chance(1, 2);
+    let cap = if miri { 400 } else if rng.chance(1, 8) { 140_000 } else { 3000 };
+    let msgs: Vec<Vec<u8>> = (0..k).map(|_| gen_prod_input(rng, cap)).collect();
+    let encs: Vec<Vec<u8>> = msgs.iter().map(|m| hcobs_ref::encode(m, hcobs_ref::PROD_FIRST, hcobs_ref::PROD_LATER)).collect();
+    let (feeds, wants) = if decode_side { (encs, msgs) } else { (msgs, encs) };
+    let mut specs: Vec<MsgSpec> = Vec::new();
+    for (m, f) in feeds.iter().enumerate() {
+        let carry = if m > 0 && !f.is_empty() && rng.chance(3, 4) {
+            let p = rng.range(0, f.len() - 1);
+            let h = if rng.chance(1, 4) { rng.range(0, (f.len() - p).min(64)) } else { rng.range(0, f.len() - p) };
+            Some((p, h))
+        } else {
+            None
+        };
+        let (a_len, b_len) = match carry {
+            Some((p, h)) => (p, f.len() - p - h),
+            None => (f.len(), 0),
+        };
+        let plan_a = random_plan(rng, a_len, &[1, 252, 253, 254], drain_weight, miri);
+        let plan_b = if carry.is_some() { random_plan(rng, b_len, &[1, 252], drain_weight, miri) } else { Vec::new() };
+        specs.push(MsgSpec { carry, plan_a, plan_b, recycle: rng.below(4) as u8, aux: rng.next_u64() });
+    }
+    let base_chunks = ByteArena::num_live_chunks();
+    let base_bytes = ByteArena::num_live_bytes();
+    let mut owned = Owned::new();
+    for f in &feeds {
+        owned.add(f);
+    }
+    ctx.begin_case(idx, || chain_json(idx, decode_side, &feeds, &specs));
+    let mut soft: Soft = Vec::new();
+    let mut carried = 0u64;
+    let res = catch(|| -> Result<(), Fail> {
+        let mut iov: Option<OwningIovec<'_>> = None;
+        let mut carry: Option<AnchoredSlice> = None;
+        let mut leftover: Vec<u8> = Vec::new();
+        for m in 0..k {
+            let sp = &specs[m];
+            let feed: &[u8] = &feeds[m];
+            let mut obs = SideObs::default();
+            let mut held = None;
+            let next_carry = if m + 1 < k { specs[m + 1].carry.map(|(p, h)| &feeds[m + 1][p..p + h]) } else { None };
+            let (total, mut done): (Vec<u8>, OwningIovec<'_>) = if decode_side {
+                let mut dec = match iov.take() {
+                    None => AnyDec::new(Params::Prod),
+                    Some(i) => AnyDec::Prod(hcobs::Decoder::new_from_iovec(i)),
+                };
+                let mut rejected = match sp.carry {
+                    Some((p, h)) => {
+                        let mut r = decode_segment(&mut dec, &feed[..p], &sp.plan_a, &mut obs, &owned, false, &mut soft, &mut held)?;
+                        let c = carry.take().expect("carried slice");
+                        if c.slice() != &feed[p..p + h] && soft.iter().all(|f| f.sig != "carried-bytes") {
+                            soft.push(fail(&["C05", "C01"], "carried-bytes", format!("message {}: the AnchoredSlice read before the previous decoder finished no longer holds its bytes", m)));
+                        }
+                        r = r || dec.decode_anchored(c).is_err();
+                        carried += 1;
+                        r || decode_segment(&mut dec, &feed[p + h..], &sp.plan_b, &mut obs, &owned, false, &mut soft, &mut held)?
+                    }
+                    None => decode_segment(&mut dec, feed, &sp.plan_a, &mut obs, &owned, false, &mut soft, &mut held)?,
+                };
+                if let Some(n) = next_carry {
+                    carry = Some(read_anchored_dec(&mut dec, n, sp.aux, &mut obs)?);
+                }
+                let done = match dec.finish() {
+                    Ok(i) => Some(i),
+                    Err(_) => {
+                        rejected = true;
+                        None
+                    }
+                };
+                if rejected || done.is_none() {
+                    return Err(fail(&["C01", "C07"], "reuse-reject", format!("message {}: a decoder that adopted a recycled iovec rejected a valid encoding", m)));
+                }
+                let done = done.unwrap();
+                let tail = done.flatten().map_err(|_| fail(&["C01", "C09"], "dec-finish-pending", "Decoder::finish() output has pending backrefs".into()))?;
+                let mut total = std::mem::take(&mut obs.drained);
+                total.extend_from_slice(&tail);
+                check_peeks(&obs, &total, "decoder")?;
+                (total, done)
+            } else {
+                let mut enc = match iov.take() {
+                    None => AnyEnc::new(Params::Prod),
+                    Some(i) => AnyEnc::Prod(hcobs::Encoder::new_from_iovec(i)),
+                };
+                let lag = Some(lag_limit_for(Params::Prod) + leftover.len());
+                match sp.carry {
+                    Some((p, h)) => {
+                        encode_segment(&mut enc, &feed[..p], &sp.plan_a, &mut obs, &owned, false, &mut soft, &mut held, lag)?;
+                        let c = carry.take().expect("carried slice");
+                        if c.slice() != &feed[p..p + h] && soft.iter().all(|f| f.sig != "carried-bytes") {
+                            soft.push(fail(&["C05", "C02"], "carried-bytes", format!("message {}: the AnchoredSlice read before the previous encoder finished no longer holds its bytes", m)));
+                        }
+                        enc.encode_anchored(c);
+                        carried += 1;
+                        encode_segment(&mut enc, &feed[p + h..], &sp.plan_b, &mut obs, &owned, false, &mut soft, &mut held, lag)?;
+                    }
+                    None => encode_segment(&mut enc, feed, &sp.plan_a, &mut obs, &owned, false, &mut soft, &mut held, lag)?,
+                }
+                if let Some(n) = next_carry {
+                    carry = Some(read_anchored_enc(&mut enc, n, sp.aux, &mut obs)?);
+                }
+                let (out, done) = finish_encode(enc, obs, &owned, &mut soft)?;
+                (out.total, done)
+            };
+            let mut want = std::mem::take(&mut leftover);
+            want.extend_from_slice(&wants[m]);
+            if total != want {
+                let d = first_diff(&total, &want);
+                let props: &[&'static str] = if decode_side { &["C01"] } else { &["C02", "C07"] };
+                return Err(fail(
+                    props,
+                    "reuse-output",
+                    format!("message {}: a codec that adopted a recycled iovec produced other bytes than a fresh one (first difference at {}; lengths {} vs {})", m, d, total.len(), want.len()),
+                ));
+            }
+            let rest = done.total_size();
+            match sp.recycle {
+                0 => done.clear(),
+                1 => {
+                    let n = done.consumer().advance_slices(usize::MAX);
+                    if n != rest {
+                        soft.push(fail(&["C03", "C09"], "advance-ret", format!("advance_slices(MAX) returned {} with {} stable bytes", n, rest)));
+                    }
+                }
+                2 => {
+                    leftover = done.flatten().unwrap_or_else(|v| v);
+                }
+                _ => {
+                    let _ = done.consumer().consume(usize::MAX);
+                }
+            }
+            if sp.recycle != 2 && !done.is_empty() {
+                return Err(fail(&["C03"], "recycle-not-empty", "iovec not empty after clear / full consumption".into()));
+            }
+            iov = Some(done);
+        }
+        Ok(())
+    });
+    ctx.ops += specs.iter().map(|s| (s.plan_a.len() + s.plan_b.len()) as u64).sum::<u64>();
+    let had_soft = !soft.is_empty();
+    for f in soft.drain(..).take(4) {
+        ctx.violate(&f.props, &f.sig, f.what, chain_json(idx, decode_side, &feeds, &specs));
+    }
+    let ret = match res {
+        Err(panic) => {
+            ctx.violate(&["C01", "C02", "C05"], &format!("panic:{}", panic_sig(&panic)), format!("codec panicked: {}", panic), chain_json(idx, decode_side, &feeds, &specs));
+            None
+        }
+        Ok(Err(f)) => {
+            ctx.violate(&f.props, &f.sig, f.what, chain_json(idx, decode_side, &feeds, &specs));
+            None
+        }
+        Ok(Ok(())) => {
+            let (c, b) = (ByteArena::num_live_chunks(), ByteArena::num_live_bytes());
+            if c != base_chunks || b != base_bytes {
+                ctx.violate(&["C10"], "leak-after-drop", format!("live arena chunks/bytes {}/{} after the case, {}/{} before", c, b, base_chunks, base_bytes), chain_json(idx, decode_side, &feeds, &specs));
+                None
+            } else if had_soft {
+                None
+            } else {
+                let side = if decode_side { "decoder" } else { "encoder" };
+                ctx.feature(&format!("codec.reuse.{}_chains", side));
+                ctx.feature_n(&format!("codec.reuse.{}.anchored_slices_carried_into_the_next_message", side), carried);
+                for sp in &specs[..k - 1] {
+                    ctx.feature(&format!("codec.reuse.recycle.{}", ["clear", "advance_all", "kept", "consume_all"][sp.recycle as usize]));
+                }
+                Some(mix(&[77, decode_side as u64, k as u64, carried, specs.iter().fold(0u64, |a, s| a * 5 + s.recycle as u64 + 1), specs.iter().fold(0u64, |a, s| a ^ plan_bits(&s.plan_a) ^ plan_bits(&s.plan_b).rotate_left(7))]))
+            }
+        }
+    };
+    ctx.end_case(idx);
+    ret
 }
 
 // ---------------------------------------------------------------------------
@@ -1397,6 +1688,24 @@ pub fn run(ctx: &mut Ctx) {
                 ctx.sample(3, || case_json("prod-random", idx, Params::Prod, &input, &case.enc_plan, None));
             }
             ctx.end_case(idx);
+            if ctx.too_many_violations() {
+                return;
+            }
+        }
+    }
+    index = index.max(3 << 31);
+    if has("random") || has("reuse") {
+        let reuse_cases = ctx.args.get_u64("reuse-cases", prod_cases / 2);
+        for r in 0..reuse_cases {
+            let idx = index;
+            index += 1;
+            if !ctx.mine(idx) {
+                continue;
+            }
+            let mut rng = Rng::for_case(ctx.args.seed, "codec-reuse", r);
+            if let Some(sig) = reuse_chain(ctx, idx, &mut rng, miri, drain_weight) {
+                ctx.signature(sig);
+            }
             if ctx.too_many_violations() {
                 return;
             }
